@@ -205,7 +205,7 @@ func (s *AScenario) recordLine(client, seq int, rec ARec) string {
 		"2024-03-05T10:20:30.123456+02:00", "2024-03-05T10:20:30Z", "2024-12-31T23:59:59.999999999-11:30", "2023-01-01T00:00:00.5+00:00",
 	}[rec.TS%4]
 	host := []string{"h1", "h2"}[(client+seq)%2]
-	msg := fmt.Sprintf("c%d.n%d", client, seq)
+	msg := fmt.Sprintf("c%d.n%d#", client, seq) // self-delimiting: a truncated stamp never equals another stamp
 	if rec.Fill > 0 {
 		msg += " " + strings.Repeat(string(rune('a'+seq%26)), rec.Fill)
 	}
@@ -897,7 +897,19 @@ func (r *aRun) drive() {
 		L := rot + defs.ForwarderAckerStopTimeout + 2*(defs.ForwarderBatchAckTimeout+defs.ForwarderRetryInterval) + sendTO +
 			defs.ForwarderConnectionTimeout + defs.ForwarderPingInterval + 3*ms(s.FlushMs) + 3*defs.IntermediateFlushInterval + 5*time.Second
 		deadline := r.healthyFrom + L
-		for !r.allDelivered() {
+		drained := func() bool {
+			if s.Profile != "c06" {
+				return true
+			}
+			// for C06 the queues found at start-up must be reattached and emptied, not just acknowledged once upstream
+			for p := range r.fs.Files(aBufRoot) {
+				if strings.HasSuffix(p, ".ff") {
+					return false
+				}
+			}
+			return true
+		}
+		for !r.allDelivered() || !drained() {
 			left := deadline - simrt.Now()
 			if left <= 0 {
 				r.finalDeadlineHit = true
